@@ -138,16 +138,36 @@ func genC03(x *Ctx) *c03Scen {
 				r.Produces = []string{"application/xml"}
 			}
 			sp.Routes = append(sp.Routes, r)
+			if depth > 0 && !strings.HasSuffix(path, "*}") && tp.Chance(100) {
+				// the same template with a trailing slash, same method: two distinct templates that are
+				// eligible for the same URLs and equally specific; which one answers must still not depend
+				// on the order of registration
+				rid++
+				sp.Routes = append(sp.Routes, RouteSpec{ID: rid, Method: m, Path: path + "/", SlashTwin: true})
+			}
 		})
 		sp.Repath = tp.Chance(150)
 		sc.Svcs = append(sc.Svcs, sp)
 	})
+	sc.NoTrim = tp.Chance(100)
+	if sc.NoTrim {
+		// with TrimRightSlashEnabled=false route paths are built with path.Join, which drops the trailing
+		// slash: the twins would be one and the same template, which the statement excludes
+		for i := range sc.Svcs {
+			var keep []RouteSpec
+			for _, r := range sc.Svcs[i].Routes {
+				if !r.SlashTwin {
+					keep = append(keep, r)
+				}
+			}
+			sc.Svcs[i].Routes = keep
+		}
+	}
 	for _, sp := range sc.Svcs {
 		sc.RouteOrd = append(sc.RouteOrd, tp.Perm(len(sp.Routes)))
 		sc.AddPos = append(sc.AddPos, tp.G(len(sp.Routes)+1))
 	}
 	sc.Preempt = []int{400, 150, 700}[tp.G(3)]
-	sc.NoTrim = tp.Chance(100)
 	if tp.Chance(300) {
 		np := len(c03Probes(sc))
 		tp.Repeat(2, 10, 800, func(int) { sc.Traffic = append(sc.Traffic, tp.G(np)) })
